@@ -109,11 +109,15 @@ def ren_pad(case, rho):
     return out
 
 
-def ren_ufunc(case, rho):
+def ren_ufunc(case, rho, rho_dummy=None):
+    """rho renames the user's labels (axes, dimensions); the dummy names of the signature are bound
+    variables of their own namespace: with rho_dummy they are renamed independently of the axes
+    (so a dummy that happens to be spelled like a real axis no longer is)"""
     out = copy.deepcopy(case)
     out["ctor"] = ren_ctor(case["ctor"], rho)
-    out["in_sig"] = [[[rho[d], p] for d, p in a] for a in case["in_sig"]]
-    out["out_sig"] = [[[rho[d], p] for d, p in a] for a in case["out_sig"]]
+    rd = rho_dummy or rho
+    out["in_sig"] = [[[rd[d], p] for d, p in a] for a in case["in_sig"]]
+    out["out_sig"] = [[[rd[d], p] for d, p in a] for a in case["out_sig"]]
 
     def fmt(args):
         return ",".join("(" + ",".join(f"{d}:{p}" for d, p in a) + ")" for a in args)
@@ -123,7 +127,7 @@ def ren_ufunc(case, rho):
         a["dims"] = ren_dims(a["dims"], rho)
     for o in (out["bound"], out["call"]):
         if o.get("bw"):
-            o["bw"] = [[rho[d], w] for d, w in o["bw"]]
+            o["bw"] = [[rd[d], w] for d, w in o["bw"]]       # boundary_width is keyed by dummy names
         for f in ("boundary", "fill"):
             if f in o:
                 o[f] = ren_kw(o[f], rho)
@@ -371,7 +375,12 @@ def generate(rng, tier):
             o = K11.gen_case(rng)
             names = ctor_names(o["ctor"]) + [d for a in o["args"] for d, _ in a["dims"]] + \
                 [d for a in o["in_sig"] + o["out_sig"] for d, _ in a]
-            cases.append({"kind": "ufunc", "rho": make_rho(rng, names), "orig": o})
+            c = {"kind": "ufunc", "rho": make_rho(rng, names), "orig": o}
+            if rng.random() < 0.5:
+                dn = sorted({d for a in o["in_sig"] + o["out_sig"] for d, _ in a} |
+                            {d for oo in (o["bound"], o["call"]) for d, _ in (oo.get("bw") or [])})
+                c["rho_dummy"] = make_rho(rng, dn)
+            cases.append(c)
         elif r < 9 and i % 20 >= 10:
             o = K5.gen_case(rng, nfaces=rng.randint(1, 3))
             names = ctor_names(o["ctor"]) + ["t"] + list(o["ctor"]["N"])
@@ -425,7 +434,7 @@ def run_impl(case):
         o1, o2 = K8.run_impl(case["orig"]), K8.run_impl(ren)
         return {"same": same_transform(o1, o2, inv, case["orig"], ren), "o1": o1, "o2": o2, "ren": ren}
     rf, run, cmp_ = RUNNERS[kind]
-    ren = rf(case["orig"], rho)
+    ren = rf(case["orig"], rho, case["rho_dummy"]) if kind == "ufunc" and case.get("rho_dummy") else rf(case["orig"], rho)
     o1, o2 = run(case["orig"]), run(ren)
     return {"same": bool(cmp_(o1, o2, inv)), "o1": o1, "o2": o2, "ren": ren}
 
